@@ -1007,6 +1007,6 @@ func cmpTH(n *tnode, x any, history map[any]bool, path string) error {
 
 func init() {
 	Register("C11",
-		"trees with sigil-free keys (incl. keys with or ending in a backslash and keys with leading or trailing white space next to their trimmed twins; in one case of five keys and paths are re-encoded to bytes that are not valid UTF-8; in one tree of four one key in five is an unaddressable distractor - empty, or containing a sigil - that every write must leave alone; long lists, chains up to 70 levels with paths of up to 80 segments, drawn construction routes so that element wrappers may be shared between positions) x sequences of 1-5 tree-form writes. SetTF paths are well-formed random walks that follow existing children or deliberately leave them (existing / new key; index < n, = n, n+1..n+4; next sigil matching or not matching the child's kind), so every cell of (container kind) x (next segment . / # / leaf) x (missing, right kind, wrong kind: scalar, nil, other container) occurs; values are scalars, fresh containers, native Go maps/slices or - one write in six - a container that is already in the tree (moved or linked: the same instance at two places) or a new container holding it, also written over its own slot. Oracle: a reference writer over a model tree with identities (reuse right-kind intermediates, replace others by a new container of the kind the next segment needs, pad lists with nil): SetTF must not panic, returns the root, GetTF(p) yields v (identical container), and the whole tree equals the model with every reused container identical to before and every created container never seen before. UnsetTF: resolvable => exactly that entry removed (list tail shifts); otherwise tree unchanged whether or not it panics. Non-trivial = a write with >= 2 segments or one that creates/replaces an intermediate or pads a list. Distinct = distinct FNV-64a hash of the case JSON.",
+		"trees with sigil-free keys (incl. keys with or ending in a backslash and keys with leading or trailing white space next to their trimmed twins; in one case of five keys and paths are re-encoded to bytes that are not valid UTF-8; in one tree of four one key in five is an unaddressable distractor - empty, or containing a sigil - that every write must leave alone; long lists, chains up to 70 levels with paths of up to 80 segments, drawn construction routes so that element wrappers may be shared between positions) x sequences of 1-5 tree-form writes. SetTF paths are well-formed random walks that follow existing children or deliberately leave them (existing / new key; index < n, = n, n+1..n+4; next sigil matching or not matching the child's kind), so every cell of (container kind) x (next segment . / # / leaf) x (missing, right kind, wrong kind: scalar, nil, other container) occurs; values are scalars, fresh containers, native Go maps/slices or - one write in six - a container that is already in the tree (moved or linked: the same instance at two places) or a new container holding it, also written over its own slot. Oracle: a reference writer over a model tree with identities (reuse right-kind intermediates, replace others by a new container of the kind the next segment needs, pad lists with nil): SetTF must not panic, returns the root, GetTF(p) yields v (identical container), and the whole tree equals the model with every reused container identical to before and every created container never seen before. UnsetTF: resolvable => exactly that entry removed (list tail shifts); otherwise tree unchanged whether or not it panics. Non-trivial = a write with >= 2 segments or one that creates/replaces an intermediate or pads a list. Distinct = distinct FNV-64a hash of the case JSON. Index gaps behind the end also 63-65, 127-129, 192, 256, 1024 (one in six of the beyond-the-end indices). Between two writes a list on the path of the last SetTF may be reversed through its own handle (one in four), and the next write then goes along exactly the same path in half of these cases.",
 		GenC11, CheckC11)
 }
